@@ -55,6 +55,7 @@ func MsiToTar(cdf *comdoc.ComDoc, w io.Writer) error {
 func DigestMsiTar(r io.Reader, hash crypto.Hash, extended bool) ([]byte, error) {
 	tr := tar.NewReader(r)
 	d := hash.New()
+	first := true
 	for {
 		hdr, err := tr.Next()
 		if err == io.EOF {
@@ -62,7 +63,11 @@ func DigestMsiTar(r io.Reader, hash crypto.Hash, extended bool) ([]byte, error) 
 		} else if err != nil {
 			return nil, err
 		}
-		if hdr.Name == msiTarExMeta {
+		// MsiToTar puts its metadata in front; a later member of that name is a
+		// stream of the document
+		isMeta := first && hdr.Name == msiTarExMeta
+		first = false
+		if isMeta {
 			if !extended {
 				continue
 			}
